@@ -34,10 +34,10 @@ def ref_path(walls2, origin, target):
     while nf != nff:
         hq = nf + 1 if step > 0 else nf  # quark being (de)activated
         wall = walls2[hq - 4]
-        blocks.append(("E", cur, wall, nf))
+        blocks.append(("E", cur, wall, nf, True))  # intermediate segment: reaches a matching scale
         blocks.append(("M", wall, hq, step < 0))
         cur, nf = wall, nf + step
-    blocks.append(("E", cur, muf, nf))
+    blocks.append(("E", cur, muf, nf, False))  # final segment
     return blocks
 
 
@@ -153,7 +153,7 @@ def run_case(cfg):
         tinfo.append(((mu**2, nf), blocks))
 
     def find_e(b):
-        return [h for h in arc["parts"] if close(h[0]["origin"], b[1]) and close(h[0]["target"], b[2]) and h[0]["nf"] == b[3]]
+        return [h for h in arc["parts"] if close(h[0]["origin"], b[1]) and close(h[0]["target"], b[2]) and h[0]["nf"] == b[3] and bool(h[0]["cliff"]) == b[4]]
 
     def find_m(b):
         return [h for h in arc["parts/matching"] if close(h[0]["scale"], b[1]) and h[0]["hq"] == b[2] and bool(h[0]["inverse"]) == b[3]]
@@ -246,6 +246,16 @@ def configs(ck):
             if len(c["targets"]) >= 2 and rng.integers(2):
                 c["targets"][1][1] = c["targets"][0][1]
             c["degree"] = 1
+            if rng.integers(3) == 0:
+                # a target exactly on a matching scale (lower / upper nf) next to targets crossing it: the same
+                # stretch is needed as a final and as an intermediate segment (two distinct parts)
+                hq = int(rng.choice([4, 5]))
+                wall = c["masses"][hq - 4] * c["ratios"][hq - 4]
+                up = bool(rng.integers(2))
+                c["init"] = [max(1.3, wall / float(rng.uniform(1.3, 1.9))), hq - 1] if up else [wall * float(rng.uniform(1.4, 2.2)), hq]
+                c["targets"] = ([[wall, hq - 1], [wall * float(rng.uniform(1.4, 2.5)), hq], [wall, hq]] if up else [[wall, hq], [max(1.3, wall / float(rng.uniform(1.2, 1.6))), hq - 1], [wall, hq - 1]])[: int(rng.integers(2, 4))]
+                c["inversion"] = None if up else str(rng.choice(["exact", "expanded"]))
+                c["scvar"], c["xif"] = [(None, 1.0), ("expanded", 2.0), ("exponentiated", 0.5)][int(rng.integers(3))]
             cfgs.append(c)
     return cfgs
 
